@@ -104,6 +104,12 @@ Proof.
   - rewrite IH. reflexivity.
 Qed.
 
+Lemma In_firstn_own {A} : forall (n : nat) (l : list A) x, In x (firstn n l) -> In x l.
+Proof.
+  induction n as [|n IH]; intros l x H; simpl in H; [destruct H|].
+  destruct l; simpl in *; [destruct H|]. destruct H; auto.
+Qed.
+
 (* ---------- count_nl ---------- *)
 Lemma count_nl_nil : count_nl [] = 0.
 Proof. reflexivity. Qed.
@@ -580,7 +586,182 @@ Proof.
     rewrite <- A2 in Hin. replace (lt_off a - 0) with (lt_off a) in Hin by lia.
     replace (length (lt_val a))
       with (Nat.min (length (lt_val a)) (Z.to_nat (lt_off b - lt_off a))) in Hin by lia.
-    rewrite <- firstn_firstn in Hin. eapply In_firstn_incl; eauto.
+    rewrite <- firstn_firstn in Hin. eapply In_firstn_own; eauto.
   - exists (lt_off a), (lt_off b). unfold tok_at; simpl.
     rewrite !location_to_index_pos by lia. auto.
+Qed.
+
+(* lexer-token formulation: texts of successive lexer tokens do not overlap *)
+Theorem C16_disjoint_lexer code lts : contract code lts ->
+  StronglySorted (fun a b => lt_off a + Z.of_nat (length (lt_val a)) <= lt_off b) lts.
+Proof. intros H. destruct (contract_facts code lts H) as [SS _]. exact SS. Qed.
+
+(* token formulation, on the offsets recovered by location_to_index *)
+Theorem C16_disjoint code lts : contract code lts ->
+  StronglySorted (fun t1 t2 => disjoint_on_line t1 t2 /\ disjoint_offsets code t1 t2)
+                 (locate code lts).
+Proof.
+  intros H. rewrite (C16_locate_spec code lts H). apply SS_map.
+  eapply SS_impl; [|apply good_pairs; exact H].
+  intros a b [Ga [Gb Hb]]. apply pair_disjoint; auto.
+Qed.
+
+Theorem C16_disjoint_lex code lts fc : contract code lts ->
+  StronglySorted (fun t1 t2 => disjoint_on_line t1 t2 /\ disjoint_offsets code t1 t2)
+                 (lex code lts fc).
+Proof. intros H. apply lex_sublist_SS, C16_disjoint, H. Qed.
+
+Theorem C16_disjoint_nth code lts fc : contract code lts ->
+  forall i j t1 t2, (i < j)%nat ->
+  nth_error (lex code lts fc) i = Some t1 -> nth_error (lex code lts fc) j = Some t2 ->
+  (t_line t1 = t_line t2 ->
+     t_col t1 + Z.of_nat (length (t_value t1)) <= t_col t2 /\ ~ In 10 (t_value t1)) /\
+  (exists o1 o2, location_to_index code (t_line t1) (t_col t1) = OK o1 /\
+                 location_to_index code (t_line t2) (t_col t2) = OK o2 /\
+                 o1 + Z.of_nat (length (t_value t1)) <= o2).
+Proof.
+  intros H i j t1 t2 Hij H1 H2.
+  apply (SS_nth _ _ (C16_disjoint_lex code lts fc H) i j t1 t2 Hij H1 H2).
+Qed.
+
+(* ---------- supporting facts, stated for the record ---------- *)
+Lemma nif_In : forall code i j,
+  In j (newline_indices_from i code) <->
+  i <= j /\ nth_error code (Z.to_nat (j - i)) = Some 10.
+Proof.
+  induction code as [|c r IH]; intros i j.
+  - simpl. split; [tauto|]. intros [_ H]. destruct (Z.to_nat (j - i)); discriminate.
+  - simpl newline_indices_from.
+    assert (R : i + 1 <= j -> nth_error (c :: r) (Z.to_nat (j - i))
+                               = nth_error r (Z.to_nat (j - (i + 1)))).
+    { intros. replace (Z.to_nat (j - i)) with (S (Z.to_nat (j - (i + 1)))) by lia.
+      reflexivity. }
+    destruct (Z.eqb_spec c 10) as [e|e].
+    + simpl In. rewrite IH. split.
+      * intros [->|[A B]].
+        -- replace (j - j) with 0 by lia. simpl. subst c. split; [lia|reflexivity].
+        -- rewrite R by lia. split; [lia|exact B].
+      * intros [A B]. destruct (Z.eq_dec i j) as [->|NE]; [left; reflexivity|right].
+        rewrite R in B by lia. split; [lia|exact B].
+    + rewrite IH. split.
+      * intros [A B]. rewrite R by lia. split; [lia|exact B].
+      * intros [A B]. destruct (Z.eq_dec i j) as [->|NE].
+        -- replace (j - j) with 0 in B by lia. simpl in B. congruence.
+        -- rewrite R in B by lia. split; [lia|exact B].
+Qed.
+
+Lemma nif_sorted : forall code i, StronglySorted Z.lt (newline_indices_from i code).
+Proof.
+  induction code as [|c r IH]; intros i; simpl; [constructor|].
+  destruct (c =? 10); auto. constructor; auto.
+  apply Forall_forall. intros j Hj. apply nif_In in Hj. lia.
+Qed.
+
+(* newline_indices code is the strictly increasing list of all positions of 10 *)
+Theorem newline_indices_In code j :
+  In j (newline_indices code) <-> 0 <= j /\ nth_error code (Z.to_nat j) = Some 10.
+Proof.
+  unfold newline_indices. rewrite nif_In. replace (j - 0) with j by lia. tauto.
+Qed.
+Theorem newline_indices_sorted code : StronglySorted Z.lt (newline_indices code).
+Proof. apply nif_sorted. Qed.
+Theorem newline_indices_length code : Z.of_nat (length (newline_indices code)) = count_nl code.
+Proof.
+  unfold newline_indices. generalize 0. induction code as [|c r IH]; intros i; simpl; auto.
+  rewrite count_nl_cons. destruct (c =? 10); simpl length; rewrite <- (IH (i + 1)); lia.
+Qed.
+
+(* advance from scratch = count of newlines before off / start of off's line *)
+Theorem advance_spec code off :
+  snd (fst (advance (newline_indices code) 0 0 off)) = count_nl (firstn (Z.to_nat off) code) /\
+  snd (advance (newline_indices code) 0 0 off) = line_start (firstn (Z.to_nat off) code).
+Proof.
+  destruct (advance_nif code 0 0 0 off) as [A B]. unfold newline_indices, line_start.
+  rewrite A, B. replace (off - 0) with off by lia. split; [lia|reflexivity].
+Qed.
+
+(* split_lines: the maximal newline-free segments of code *)
+Fixpoint join_nl (ls : list pystr) : pystr :=
+  match ls with
+  | [] => []
+  | l :: r => match r with [] => l | _ => l ++ 10 :: join_nl r end
+  end.
+
+Lemma split_lines_aux_facts : forall code cur, ~ In 10 cur ->
+  split_lines_aux code cur <> [] /\
+  join_nl (split_lines_aux code cur) = rev cur ++ code /\
+  Forall (fun l => ~ In 10 l) (split_lines_aux code cur) /\
+  Z.of_nat (length (split_lines_aux code cur)) = count_nl code + 1.
+Proof.
+  induction code as [|c r IH]; intros cur Hc.
+  - rewrite count_nl_nil. simpl. rewrite app_nil_r. repeat split; try discriminate; auto.
+    constructor; auto. rewrite <- in_rev. exact Hc.
+  - simpl split_lines_aux. rewrite count_nl_cons. destruct (Z.eqb_spec c 10) as [e|e].
+    + destruct (IH [] (fun x => x)) as [N [J [F L]]]. repeat split; try discriminate.
+      * simpl join_nl. destruct (split_lines_aux r []) eqn:E; [congruence|].
+        rewrite J. subst c. reflexivity.
+      * constructor; auto. rewrite <- in_rev. exact Hc.
+      * simpl length. lia.
+    + assert (Hc' : ~ In 10 (c :: cur)) by (simpl; intros [?|?]; [congruence|tauto]).
+      destruct (IH (c :: cur) Hc') as [N [J [F L]]]. repeat split; auto.
+      * rewrite J. simpl. rewrite <- app_assoc. reflexivity.
+Qed.
+
+Theorem split_lines_spec code :
+  join_nl (split_lines code) = code /\
+  Forall (fun l => ~ In 10 l) (split_lines code) /\
+  Z.of_nat (length (split_lines code)) = count_nl code + 1.
+Proof.
+  destruct (split_lines_aux_facts code [] (fun x => x)) as [_ [J [F L]]].
+  unfold split_lines. auto.
+Qed.
+
+Print Assumptions line_start_spec.
+Print Assumptions C16_branches_agree.
+Print Assumptions C16_branches_agree_code.
+Print Assumptions locate_is_loop.
+Print Assumptions C16_locate_spec.
+Print Assumptions C16_values.
+Print Assumptions C16_kinds.
+Print Assumptions C16_length.
+Print Assumptions C16_line_is_count.
+Print Assumptions C16_line_is_count_all.
+Print Assumptions C16_lex_is_filter.
+Print Assumptions C16_lex_In.
+Print Assumptions C16_no_whitespace_kept.
+Print Assumptions C16_comments_dropped.
+Print Assumptions C16_comments_kept.
+Print Assumptions C16_code_tokens_kept.
+Print Assumptions C16_strictly_increasing.
+Print Assumptions C16_strictly_increasing_lex.
+Print Assumptions C16_strictly_increasing_nth.
+Print Assumptions C16_strictly_increasing_locate_nth.
+Print Assumptions location_to_index_pos.
+Print Assumptions C16_position.
+Print Assumptions C16_text_at_offset.
+Print Assumptions C16_text.
+Print Assumptions C16_text_lex.
+Print Assumptions C16_disjoint_lexer.
+Print Assumptions C16_disjoint.
+Print Assumptions C16_disjoint_lex.
+Print Assumptions C16_disjoint_nth.
+Print Assumptions newline_indices_In.
+Print Assumptions newline_indices_sorted.
+Print Assumptions newline_indices_length.
+Print Assumptions advance_spec.
+Print Assumptions sum_lines_code.
+Print Assumptions split_lines_spec.
+
+(* non-vacuity: the contract is satisfiable, including by zero-length tokens *)
+Example contract_example :
+  let code := [97; 10; 98; 32; 99] in
+  let lts := [mkLtok 0 KName [97]; mkLtok 1 KWhitespace [10]; mkLtok 2 KText [];
+              mkLtok 2 KName [98]; mkLtok 3 KWhitespace [32]; mkLtok 4 KName [99]] in
+  contract code lts /\
+  lex code lts true = [mkTok KName [97] 1 1; mkTok KName [98] 2 1; mkTok KName [99] 2 3].
+Proof.
+  split.
+  - unfold contract. simpl. repeat (split; [reflexivity|]; eexists; split; [reflexivity|]).
+    reflexivity.
+  - reflexivity.
 Qed.
